@@ -15,6 +15,7 @@ import numpy
 
 B = 10000
 POISON_BYTE = 0xA5
+EXP_CLAMP = 2 ** 30          # exponents at or above this cannot be exponents the library accepts (TLC ints are 32 bit)
 NAME_RE = re.compile(r"^q(\d+)$")
 
 
@@ -152,8 +153,8 @@ def carrier(obj) -> str:
 def project_poly(p) -> dict:
     names = [name_id(n) for n in p.names]
     exps = p.exponents
-    rows = [[int(e) for e in row] for row in exps.tolist()]
-    keys = [[ord(c) for c in str(k)] for k in p.keys.tolist()]
+    rows = [[min(int(e), EXP_CLAMP) for e in row] for row in exps.tolist()]
+    keys = [[min(ord(c), EXP_CLAMP) for c in str(k)] for k in p.keys.tolist()]
     raw = _raw(p)
     vnames = raw.dtype.names or ()
     vkeys = [[ord(c) for c in str(k)] for k in vnames]
